@@ -110,7 +110,10 @@ func (o *oracle) onUpload(inst *Instance, inc int, st *Store, key string, p *pen
 	} else if !imm && !w.auto {
 		o.v("C04", "immutable-flag-missing", "key %s uploaded without Immutable", key)
 	}
-	if strings.HasPrefix(key, "staging/") || strings.HasPrefix(key, "tile/data/") {
+	if strings.HasPrefix(key, "staging/") {
+		// only what sunlight authored: the bundle a sequencing round builds. Data
+		// tiles are also uploaded by recovery, from a bundle that may have been
+		// tampered with.
 		o.recordIntended(key, p.data)
 	}
 	if cur, ok := st.objs[key]; ok && cur.Opts.Immutable {
@@ -764,6 +767,7 @@ func (o *oracle) checkAcks() {
 		}
 		o.okAcks = append(o.okAcks, s)
 		o.checkAckNow(in, s, "ack")
+		o.checkIssuersAtAck(in, s)
 		// C07: one (index, timestamp) per entry within a cache epoch
 		k := fmt.Sprintf("%d/%d/%x", s.Inst, s.cacheEpoch, s.Item.Key)
 		if prev, ok := o.ackSeen[k]; ok && prev != [2]int64{s.Index, s.Time} {
